@@ -265,11 +265,11 @@ macro_rules! dim_impl {
                 let centre: Vec<f64> = (0..d).map(|a| 0.5 * (lo[a] + hi[a])).collect();
                 // ---- rays: (origin, dir, max_toi, solid)
                 let mut rays: Vec<(Vec<f64>, Vec<f64>, f64, bool)> = vec![];
-                for (j, c) in targets.iter().take(32).enumerate() {
+                for (j, c) in targets.iter().take(16).enumerate() {
                     let u = &dirs[j % dirs.len()];
                     let sc = [1.0, 2.0, 0.5][j % 3];
                     rays.push(((0..d).map(|a| c[a] + 3.0 * u[a]).collect(), u.iter().map(|x| 0.0 - x * sc).collect(), 1000.0, j % 2 == 0));
-                    if j < 16 { rays.push(((0..d).map(|a| c[a] - 3.0 * u[a]).collect(), u.iter().map(|x| x * sc).collect(), 1000.0, j % 2 == 1)); }
+                    if j < 8 { rays.push(((0..d).map(|a| c[a] - 3.0 * u[a]).collect(), u.iter().map(|x| x * sc).collect(), 1000.0, j % 2 == 1)); }
                 }
                 rays.push(((0..d).map(|a| lo[a] - 1.0).collect(), (0..d).map(|a| hi[a] - lo[a] + 2.0).collect(), 1000.0, true));
                 rays.push((centre.clone(), (0..d).map(|a| if a == 0 { 1.0 } else { 0.0 }).collect(), 0.5, false));
@@ -351,7 +351,7 @@ macro_rules! dim_impl {
                     let ray = Ray::new(pt(&o), vc(&vec![1.0f64; $d]));
                     let ball = Ball::new(0.25);
                     let id = Isometry::<Real>::identity();
-                    let st = |r: Result<String, String>| match r { Ok(s) => s, Err(_) => "panicked".to_string() };
+                    let st = |r: Result<String, String>| match r { Ok(s) => s, Err(e) => format!("panicked:{}", e.split_whitespace().last().unwrap_or("?")) };
                     return format!("emptyfinal ray {} rayn {} proj {} distance {} intersection_test {} contact {}",
                         st(guard("".into(), || match mesh.cast_local_ray(&ray, 10.0, true) { None => "none".into(), Some(_) => "some".into() })),
                         st(guard("".into(), || match mesh.cast_local_ray_and_get_normal(&ray, 10.0, true) { None => "none".into(), Some(_) => "some".into() })),
